@@ -179,6 +179,11 @@ func histAllSmall() []hprog {
 			if i == 0 && j == 0 {
 				continue
 			}
+			// pairs are built over {a.txt, *.src, sub/*.src}: the second literal adds nothing a pair
+			// of tasks does not already show (P3, P6, P10 cover two literals) and quadruples the family
+			if i&2 != 0 || j&2 != 0 {
+				continue
+			}
 			for chain := 0; chain < 2; chain++ {
 				if chain == 0 && j < i {
 					continue // symmetric to (j,i) when the tasks are independent
